@@ -87,6 +87,8 @@ func build(d desc) (p prim, class string, msg string) {
 			}
 		}
 		m = c.ToMesh()
+	case "cone":
+		m = primitives.Cone{Height: d.Height, Radius: d.Radius, Sides: d.Sides}.ToMesh()
 	case "cubeW", "cubeQ":
 		c := primitives.Cube{Width: d.Width, Height: d.Height, Depth: d.Depth}
 		switch d.UV {
